@@ -5,6 +5,7 @@ These runs use NO hook: no '#' pseudo-commands, no IAUTHD_VERIF_* environment.
 import ipaddress
 import os
 import random
+import re
 import signal
 import time
 
@@ -189,6 +190,13 @@ def _worker(a):
         shutil.rmtree(d.dir, ignore_errors=True)
     if not r.clean():
         return {"viol": [], "stats": stats, "inconc": ["daemon unclean (%s); see C08" % (r.describe(),)], "hash": vcommon.h([seed, li]), "nontrivial": False}
+    # texts the services sent: a relayed challenge / retry / refusal text must be (a cut of) one of them - anything else on
+    # such a line (e.g. the next message glued to an unterminated one) is not "a single valid message"
+    sent_texts = {"C": [proto.UNLINKED_TEXT], "k": []}
+    for l in lines:
+        m = re.match(r"^-1 X \S+ \S+ :(NO|AGAIN|MORE) (.*)$", l, re.S)
+        if m:
+            sent_texts["k" if m.group(1) == "NO" else "C"].append(m.group(2))
     started = False
     for ln in out_lines:
         if not started:
@@ -215,6 +223,11 @@ def _worker(a):
                 viol.append(("address-colon", "address-colon", "address text begins with ':': %r" % ln))
             if c["port"] != port:
                 viol.append(("port", "port", "client %d was announced with port %d: %r" % (c["id"], port, ln)))
+            if c["cmd"] in "Ck":
+                stats["relayed_texts_checked"] = stats.get("relayed_texts_checked", 0) + 1
+                seen = c["tail"][1:]
+                if not any(t == seen or (len(ln) >= 1000 and t.startswith(seen)) for t in sent_texts[c["cmd"]]):
+                    viol.append(("foreign-text", "foreign-text", "the text of %r... (%d bytes) is not (a cut of) any text a service sent" % (ln[:120], len(ln))))
         elif c["kind"] == "xquery":
             stats["xqueries"] += 1
             pt = proto.parse_tag(c["tag"])
